@@ -35,9 +35,9 @@ def run_one(prop, tier, seed, root=None, quiet=False):
             for m in tally["misses"]:
                 print("SELFTEST-MISS property=%s %s: %s" % (prop, m["variant"], m["problem"]))
                 res.undecided("SELFTEST", "selftest::" + m["variant"], None, m["problem"])
-            print("SELFTEST property=%s faults %d/%d detected, refactorings %d/%d silent, seeded %d/%d detected"
+            print("SELFTEST property=%s faults %d/%d detected, refactorings %d/%d silent, seeded %d/%d detected, sub-agent refactorings %d/%d silent"
                   % (prop, tally["faults_detected"], tally["faults_applied"], tally["refactorings_silent"], tally["refactorings_applied"],
-                     tally["seeded_detected"], tally["seeded_applied"]))
+                     tally["seeded_detected"], tally["seeded_applied"], tally.get("agent_refactorings_silent", 0), tally.get("agent_refactorings_applied", 0)))
         try:
             from .specs.manifest_table import CLAIMED
             technique = CLAIMED[prop]["technique"]
